@@ -162,11 +162,18 @@ def gen_for(path, src):
     return good
 
 
+BASE = "/tmp/mutbase"      # snapshot of /repo's working tree taken by `gen`; mutants are edits of THIS copy
+
+
 def cmd_gen(a):
     os.makedirs(OUT, exist_ok=True)
+    shutil.rmtree(BASE, ignore_errors=True)
+    subprocess.run(["rsync", "-a", "--exclude", ".git", "--exclude", "__pycache__", "/repo/", BASE + "/"], check=True)
+    head = subprocess.run(["git", "-C", "/repo", "rev-parse", "--short", "HEAD"], capture_output=True, text=True).stdout.strip()
+    open(os.path.join(OUT, "BASE_COMMIT"), "w").write(head + "\n")
     allm = []
     for rel in TARGETS:
-        p = os.path.join("/repo", rel)
+        p = os.path.join(BASE, rel)
         if not os.path.exists(p):
             continue
         src = open(p, encoding="utf-8").read()
@@ -189,19 +196,19 @@ def _workdir(slot):
     d = f"/tmp/mutrun/w{slot}"
     if not os.path.isdir(d):
         os.makedirs("/tmp/mutrun", exist_ok=True)
-        subprocess.run(["rsync", "-a", "--exclude", ".git", "--exclude", "__pycache__", "/repo/", d + "/"], check=True)
+        subprocess.run(["rsync", "-a", BASE + "/", d + "/"], check=True)
     return d
 
 
 def _apply(d, m):
     p = os.path.join(d, m["file"])
-    src = open(os.path.join("/repo", m["file"]), encoding="utf-8").read()
+    src = open(os.path.join(BASE, m["file"]), encoding="utf-8").read()
     assert src[m["start"]:m["end"]] == m["old"], "stale mutant list"
     open(p, "w", encoding="utf-8").write(src[:m["start"]] + m["new"] + src[m["end"]:])
 
 
 def _restore(d, m):
-    shutil.copy(os.path.join("/repo", m["file"]), os.path.join(d, m["file"]))
+    shutil.copy(os.path.join(BASE, m["file"]), os.path.join(d, m["file"]))
 
 
 def _slot():
